@@ -5,6 +5,7 @@ import (
 	"fmt"
 	"os"
 	"sort"
+	"strings"
 	"sync"
 
 	"github.com/openziti/storage/boltz"
@@ -139,6 +140,12 @@ func siblingScenario(c *core.Ctx, idx int, prop string) {
 		Links:  []schema.LinkDef{{Field: "bhubs", Target: "hubs", TargetField: "bnodes"}},
 		Unique: []schema.UniqueDef{{Field: "bcode", Nullable: prop != "C09"}}, SetIdx: []string{"broles"},
 		FKs: []schema.FKDef{{Field: "owner", Target: "hubs", Kind: schema.FkConstraint, Nullable: true, Cascade: int(boltz.CascadeNone)}}}
+	if prop == "C09" {
+		// a foreign key constraint whose target is a child store: a reference must name an entity that has data in that
+		// child store, an entity of the parent store alone is no target
+		hubs.Fields = append(hubs.Fields, schema.Field{Name: "fav", Kind: schema.KStr, FK: "nodes/ka"})
+		hubs.FKs = append(hubs.FKs, schema.FKDef{Field: "fav", Target: "nodes/ka", Kind: schema.FkConstraint, Nullable: true, Cascade: int(boltz.CascadeNone)})
+	}
 	sc := schema.Build([]*schema.StoreDef{hubs, nodes, kidA, kidB})
 	path := c.TempFile("c06s")
 	db, err := sc.OpenDb(path)
@@ -442,4 +449,50 @@ func c09SiblingSoundness(c *core.Ctx, sc *schema.Schema, db *boltz.DbImpl, state
 			c.Violationf("C09 siblings: check-only integrity run changed the database ("+mode+")", info, "diff: %v", dump.Diff(state, after, nil, 4))
 		}
 	}
+	// completeness for the foreign key whose target is a child store: written raw, the reference names an entity with
+	// data in that child store (no report), an entity of the parent store without such data, or nothing at all (reported)
+	var withA, withoutA string
+	_ = db.View(func(tx *bbolt.Tx) error {
+		for _, id := range sc.St("nodes").RawIds(tx) {
+			if bpath(tx, "stores", "nodes", id, "ka") != nil {
+				withA = id
+			} else {
+				withoutA = id
+			}
+		}
+		return nil
+	})
+	for _, tc := range []struct {
+		what, ref string
+		dangling  bool
+	}{{"an entity with data in the child store", withA, false}, {"an entity of the parent store without data in the child store", withoutA, true}, {"no entity at all", "nd-nowhere", true}} {
+		if tc.ref == "" {
+			continue
+		}
+		var reps []string
+		err := db.Update(nil, func(ctx boltz.MutateContext) error {
+			if err := bpath(ctx.Tx(), "stores", "hubs", "hub-zz").Put([]byte("fav"), append([]byte{byte(boltz.TypeString)}, tc.ref...)); err != nil {
+				return err
+			}
+			return sc.St("hubs").Store.CheckIntegrity(ctx, false, func(err error, fixed bool) { reps = append(reps, err.Error()) })
+		})
+		c.Eval()
+		c.Count("child_store_target_references_checked", 1)
+		c.Cover("fk_to_child_store", tc.what)
+		reported := false
+		for _, rep := range reps {
+			reported = reported || (strings.Contains(rep, tc.ref) && strings.Contains(rep, "fav"))
+		}
+		tinfo := map[string]any{"reference": tc.ref, "names": tc.what, "reports": reps}
+		if err != nil {
+			c.Violationf("C09 siblings: integrity check failed (fk constraint to a child store)", tinfo, "%v", err)
+		} else if tc.dangling && !reported {
+			c.Violationf("C09 siblings: a reference to "+tc.what+" is not reported by the fk constraint whose target is the child store", tinfo, "hubs[hub-zz].fav = %q: %d reports", tc.ref, len(reps))
+		} else if !tc.dangling && len(reps) > 0 {
+			c.Violationf("C09 siblings: a valid reference to a child-store entity is reported", tinfo, "%v", reps)
+		}
+	}
+	_ = db.Update(nil, func(ctx boltz.MutateContext) error {
+		return bpath(ctx.Tx(), "stores", "hubs", "hub-zz").Delete([]byte("fav"))
+	})
 }
